@@ -170,10 +170,41 @@ def cat_lemma(k):
             % (k, ', '.join('%s: Seq<u8>' % e for e in es), lnest(['o'] + es), rnest(es), lnest(['o'] + es), rnest(es)))
 
 
-def dec_hint(k):
-    ds = ['d%d' % i for i in range(k)]
+def dec_hint(k, tag=None):
+    """reassociation needed by the decode postcondition.  For enums the first operand is the variant's tag literal:
+    a pattern that generic is self-feeding (its right-hand side creates `x + r` terms that match it again whenever x
+    unfolds to a concatenation: 12 000 instantiations on R1E of family seed 1), the tagged one is not."""
+    if tag is None:
+        ds = ['d%d' % i for i in range(k)]
+        qs = ds
+    else:
+        ds = ['seq![%du8]' % tag] + ['d%d' % i for i in range(1, k)]
+        qs = ds[1:]
     return ('assert forall|%s, r: Seq<u8>| #[trigger] ((%s) + r) == %s by { assert(((%s) + r) =~= %s); }'
-            % (', '.join('%s: Seq<u8>' % x for x in ds), rnest(ds), rnest(ds + ['r']), rnest(ds), rnest(ds + ['r'])))
+            % (', '.join('%s: Seq<u8>' % x for x in qs), rnest(ds), rnest(ds + ['r']), rnest(ds), rnest(ds + ['r'])))
+
+
+def dec_hint_struct(ty, ns, vacc):
+    """dec_bytes(v) ++ r in right-nested form, oriented by the value: the trigger needs an application of this
+    type's dec_bytes, so it fires for the returned value only (the sequence-generic reassociation was self-feeding)"""
+    ds = [dec_term(f, vacc(f)) for f in ns]
+    return ('assert forall|v: %s, r: Seq<u8>| #[trigger] (<%s as Decode>::dec_bytes(&v) + r) == %s by { assert(((%s) + r) =~= %s); }'
+            % (ty, ty, rnest(ds + ['r']), rnest(ds), rnest(ds + ['r'])))
+
+
+def dec_hint_enum(d, ty, idx):
+    arms, proofs = [], []
+    for v in d['variants']:
+        pat, names = pat_for(d, v)
+        if v['skip']:
+            arms.append('%s => r' % pat)
+            proofs.append('%s => { assert(Seq::<u8>::empty() + r =~= r); }' % pat)
+        else:
+            ds = ['seq![%du8]' % idx[v['name']]] + [dec_term(f, x) for f, x in zip(v['fields'], names)]
+            arms.append('%s => %s' % (pat, rnest(ds + ['r'])))
+            proofs.append('%s => { assert(((%s) + r) =~= %s); }' % (pat, rnest(ds), rnest(ds + ['r'])))
+    return ('assert forall|v: %s, r: Seq<u8>| #[trigger] (<%s as Decode>::dec_bytes(&v) + r) == (match v { %s }) by { match v { %s } }'
+            % (ty, ty, ', '.join(arms), ', '.join(proofs)))
 
 
 def struct_module(d, src, out, props):
@@ -235,7 +266,7 @@ def struct_module(d, src, out, props):
         if k == 0:
             hints.append('broadcast use sl::concat_empty_l;')
         if k >= 2:
-            hints.append(dec_hint(k))
+            hints.append(dec_hint_struct(ty, ns, vacc))
         if any(is_compact(f) for f in ns):
             hints.append('le_lemmas::pow256_values();')
         if hints:
@@ -396,10 +427,12 @@ def enum_module(d, src, out, props):
         out.append('    //@fn fam.%s.decode :: @family | %s | decode' % (name, dec.header))
         out += SUBS_DEC
         hints = ['assert forall|s: Seq<u8>| s.len() >= 1 implies s =~= #[trigger] (seq![s[0]] + s.skip(1)) by {}', 'le_lemmas::pow256_values();']
-        for k in arities:
-            if k >= 2:
-                hints.append(dec_hint(k))
-        out.append('    //@ at start\n    //@+ proof { %s }' % ' '.join(h if h.endswith(';') or h.endswith('}') else h + ';' for h in hints))
+        if any(len(v['fields']) >= 1 for v in live):
+            hints.append(dec_hint_enum(d, ty, idx))
+        # the proof of a derived decoder needs the field types' *contracts* only: hiding the definitions behind the
+        # collection types' spec functions keeps z3 from unfolding them (rlimit 400 -> 5 on R6E of family seed 6)
+        hide = 'hide(seq_decode_vec::vec_accepts); hide(seq_decode_vec::vec_need_depth); hide(seq_decode_vec::vec_need_mem); hide(seq_spec::dec_seq); hide(spec::compact_accepts);'
+        out.append('    //@ at start\n    //@+ %s\n    //@+ proof { %s }' % (hide, ' '.join(h if h.endswith(';') or h.endswith('}') else h + ';' for h in hints)))
         out.append('}')
     if 'MaxEncodedLen' in d['derives']:
         mel_module(d, src, out, [(v, [f for f in v['fields']]) for v in live], enum=True)
